@@ -206,3 +206,130 @@ package brontide
 //@   ensures b.pooledHeaderBuf == nil && b.pooledBodyBuf == nil && len(b.nextHeaderSend) == 0 && len(b.nextBodySend) == 0
 //@   site call Put nth 0: assert arg(1) == old(b.pooledHeaderBuf) && old(b.pooledHeaderBuf) != nil
 //@   site call Put nth 1: assert arg(1) == old(b.pooledBodyBuf) && old(b.pooledBodyBuf) != nil
+//@
+//@ // ---- zero-annotation bounds sweep (tools/sweep_gen.py): index and slice expressions of these functions are in range; loops abstracted
+//@
+//@ func Dial
+//@   props C11
+//@   loop * havoc
+//@   bounds-safe
+//@
+//@ func (c *Conn) ReadNextMessage
+//@   props C11
+//@   loop * havoc
+//@   bounds-safe
+//@
+//@ func (c *Conn) Read
+//@   props C11
+//@   loop * havoc
+//@   bounds-safe
+//@
+//@ func (c *Conn) Close
+//@   props C11
+//@   loop * havoc
+//@   bounds-safe
+//@
+//@ func (c *Conn) LocalAddr
+//@   props C11
+//@   loop * havoc
+//@   bounds-safe
+//@
+//@ func (c *Conn) RemoteAddr
+//@   props C11
+//@   loop * havoc
+//@   bounds-safe
+//@
+//@ func (c *Conn) SetDeadline
+//@   props C11
+//@   loop * havoc
+//@   bounds-safe
+//@
+//@ func (c *Conn) SetReadDeadline
+//@   props C11
+//@   loop * havoc
+//@   bounds-safe
+//@
+//@ func (c *Conn) SetWriteDeadline
+//@   props C11
+//@   loop * havoc
+//@   bounds-safe
+//@
+//@ func (c *Conn) RemotePub
+//@   props C11
+//@   loop * havoc
+//@   bounds-safe
+//@
+//@ func (c *Conn) LocalPub
+//@   props C11
+//@   loop * havoc
+//@   bounds-safe
+//@
+//@ func (c *Conn) ClearPendingSend
+//@   props C11
+//@   loop * havoc
+//@   bounds-safe
+//@
+//@ func NewListener
+//@   props C11
+//@   loop * havoc
+//@   bounds-safe
+//@
+//@ func (l *Listener) listen
+//@   props C11
+//@   loop * havoc
+//@   bounds-safe
+//@
+//@ func rejectedConnErr
+//@   props C11
+//@   loop * havoc
+//@   bounds-safe
+//@
+//@ func (l *Listener) doHandshake
+//@   props C11
+//@   loop * havoc
+//@   bounds-safe
+//@
+//@ func (l *Listener) acceptConn
+//@   props C11
+//@   loop * havoc
+//@   bounds-safe
+//@
+//@ func (l *Listener) rejectConn
+//@   props C11
+//@   loop * havoc
+//@   bounds-safe
+//@
+//@ func (l *Listener) Accept
+//@   props C11
+//@   loop * havoc
+//@   bounds-safe
+//@
+//@ func (l *Listener) Close
+//@   props C11
+//@   loop * havoc
+//@   bounds-safe
+//@
+//@ func (l *Listener) Addr
+//@   props C11
+//@   loop * havoc
+//@   bounds-safe
+//@
+//@ func DisabledBanClosure
+//@   props C11
+//@   loop * havoc
+//@   bounds-safe
+//@
+//@ func newHandshakeState
+//@   props C11
+//@   loop * havoc
+//@   bounds-safe
+//@
+//@ func EphemeralGenerator
+//@   props C11
+//@   loop * havoc
+//@   bounds-safe
+//@
+//@ func NewBrontideMachine
+//@   props C11
+//@   loop * havoc
+//@   bounds-safe
